@@ -97,7 +97,18 @@ fn documented() -> Vec<String> {
     for b in ["{fid}", "{projid}", "{mirror-count}", "{stripe-count}", "{stripe-size}", "{xattr:abc}"] {
         v.push(format!("%{b}"));
     }
-    for e in ["a", "b", "c", "f", "n", "r", "t", "v", "0", "\\", "101", "000", "377", "012", "q", " ", "%"] {
+    for b in ["fid", "projid", "mirror-count", "stripe-count", "stripe-size"] {
+        for suffix in [":x", ":hex", ":", " ", "x", "}", ":a:b"] {
+            v.push(format!("%{{{b}{suffix}}}"));
+        }
+        v.push(format!("%{{{}}}", b.to_uppercase()));
+        v.push(format!("%{{{b}"));
+        v.push(format!("%{b}}}"));
+    }
+    for x in ["%{xattr}", "%{xattr:}", "%{xattr:a}x", "%{xattr:ab", "%{xattr:abc}}", "%{xattr::a}", "%{unknown}", "%{}", "%{"] {
+        v.push(x.to_string());
+    }
+    for e in ["a", "b", "c", "f", "n", "r", "t", "v", "0", "\\", "101", "000", "377", "012", "q", " ", "%", "400", "464", "777", "378", "018"] {
         v.push(format!("\\{e}"));
     }
     let mut out = vec![];
